@@ -20,7 +20,7 @@ VERBS = ["GET", "POST", "PUT", "PATCH", "DELETE"]
 BODY_VERBS = ("POST", "PUT", "PATCH")
 HOLE_NAMES = ["id", "uid", "name", "key", "user_id", "orgID", "x1", "slug", "v"]
 PARAM_NAMES = ["userID", "org", "item", "k", "who", "ref", "code", "num", "tag", "size", "page", "flag", "sort",
-               "limit", "q", "lang", "since", "mode"]
+               "limit", "q", "lang", "since", "mode", "orgID", "page_size", "HTTPCode", "apiKey", "XMLName"]
 ALIAS_NAMES = ["page_idx", "sz", "user-id", "x|y", "Q", "per_page", "s", "id2", "lng", "order-by", "f"]
 LITS = ["/users/", "/", "/v1/items/", "/a/b/", "/orgs/", "/x-", "/files/", "/api.v2/", "/t~/", "/m:n/", "/q/", "/u(1)/"]
 MID_LITS = ["/", "/", "/", "-", ".", "/sub/", "", ":", "/x/", "}/", "/a b/", "/c;d=1/", "/?/"]
@@ -32,8 +32,10 @@ STR_SAFE = ["a", "alice", "a b", "x?y#z", "a+b&c=d", "été", "", "..", "a/b", "
             "0", "-", "~", "a}b", ".", "x/../y", "sp ace/sl", "中", "A", "/lead", "trail/", "a//b", "(p)", "a:b@c", "!$'*,"]
 STR_QUERY_ONLY = ["100%", "{x}", "%41", "{id}", "50%25", "a{b"]
 BASES = ["", "/", "/api", "/api/", "/api/v1", "/b.c/d-e"]
+# names on which transfer.ToCamelCase / ToPascalCase are NOT the identity are frequent on purpose (acronym runs, underscores)
 STRUCT_FIELD_NAMES = ["Name", "PageSize", "UserID", "Active", "Q", "HTTPCode", "Kind", "Note", "secret", "ownerId", "n",
-                      "Lang", "MaxAge", "tok"]
+                      "Lang", "MaxAge", "tok", "userID", "orgID", "user_name", "xAPIKey", "httpCode", "APIKey", "User_Name",
+                      "ID", "userID", "orgID", "user_name", "HTTPCode", "UserID"]
 
 
 # ------------------------------------------------------------------ Coq text
@@ -81,7 +83,15 @@ def _pick_distinct(rng, pool, n, avoid=()):
 
 def gen_struct(rng, name, qual):
     nf = rng.randint(1, 5)
-    names = _pick_distinct(rng, STRUCT_FIELD_NAMES, nf)
+    names = []
+    for n in _pick_distinct(rng, list(dict.fromkeys(rng.sample(STRUCT_FIELD_NAMES, len(STRUCT_FIELD_NAMES)))), len(set(STRUCT_FIELD_NAMES))):
+        # a getter must not collide with an exported field or another getter of the struct
+        taken = {x if x[0].isupper() else getter_name(x) for x in names}
+        me = n if n[0].isupper() else getter_name(n)
+        if me not in taken and n not in names:
+            names.append(n)
+        if len(names) == nf:
+            break
     fields, used_alias = [], set()
     i = 0
     while i < len(names):
